@@ -96,7 +96,7 @@ def _replay_law(name, label, law):
             "nan": "bad = math.isnan(y) != math.isnan(x)",
             "mono_inc": "bad = x <= x2 and not (y <= y2 + tol)",
             "mono_dec": "bad = x <= x2 and not (y >= y2 - tol)",
-            "pyfloat": "bad = not same(float(t.membership(float(x))), float(t.membership(np.array(x))), 0.0)",
+            "pyfloat": "bad = not (same(float(t.membership(float(x))), float(t.membership(np.float64(x))), 0.0) and same(float(t.membership(np.array(x))), float(t.membership(np.float64(x))), 0.0))",
             "arrays": "xa = np.array([x, x2, x]); xb = np.array([[x, x2], [x2, x]]); r = t.membership(xa); r2 = t.membership(xb);"
                       " bad = not (same(r, [y, y2, y], 0.0) and same(r2, [[y, y2], [y2, y]], 0.0) and same(xa, [x, x2, x]) and same(xb, [[x, x2], [x2, x]]))\n"
                       "for A in (np.array([x]), np.array([[x]]), np.array([[x], [x2]]), np.array([[x, x2]]), np.array([[x, x2, x2], [x2, x2, x]]).T, np.asfortranarray([[x, x2], [x2, x2]]), np.array([x, x2, x2])[::-1]):\n"
@@ -173,11 +173,11 @@ def ob_pyfloat(name):
         tnp = mk(fl, name, P, h)
         label = f"{name}/R/python-floats"
         rp = _replay_law(name, label, "pyfloat")
-        for p in ob.paths(pre, lambda: (tpy.membership(py(x)), tnp.membership(x))):
+        for p in ob.paths(pre, lambda: (tpy.membership(py(x)), tnp.membership(x), tnp.membership(core.sym0d(x)))):
             if p.exc is not None:
                 ob.unexpected(pre, p, label, _inputs(P, h, x), rp)
                 continue
-            ob.prove(pre, p, same(tf(p.result[0]), tf(p.result[1])), label, _inputs(P, h, x), rp)
+            ob.prove(pre, p, z3.And(same(tf(p.result[0]), tf(p.result[1])), same(tf(p.result[2]), tf(p.result[1]))), label, _inputs(P, h, x), rp)
 
     return run
 
